@@ -172,7 +172,10 @@ Fixpoint spec_nni {A} (seen : list (option A)) (rest : list (option A)) (obs : l
 
 (* ------------------------------------------------------------------------------------------------------------ *)
 (* get_sample_times: every length is the integer nearest to duration * rate, which must be within the tolerance
-   and positive; the grid is k / rate for k below the largest length *)
+   and positive; the grid is, for k below the largest length, the binary64 number nearest to the exact rational k / rate
+   (Model.grid_time: ONE rounding of the exact quotient; Model.b64 is proved equal to Flocq's round-to-nearest-even in
+   ProofsGrid.v, and the Python oracle evaluates it independently as float(Fraction(k) / rate)).  For dyadic rates and
+   small k this is k / rate itself (the round-1..3 clause `t * rate = k`). *)
 Definition spec_len (rate dur : Q) (n : Z) : bool :=
   Qle_bool (Qabs (dur * rate - inject_Z n)) len_tolerance && (0 <? n).
 Definition no_len (rate dur : Q) : bool :=
@@ -189,7 +192,7 @@ Definition spec_times (rate : Q) (durs : list Q) (obs : outcome (list Q * list Z
              (length lens =? length durs)%nat
              && forallb (fun p : Q * Z => spec_len rate (fst p) (snd p)) (combine durs lens)
              && (Z.of_nat (length ts) =? fold_right Z.max 0 lens)
-             && forallb (fun p : nat * Q => Qeq_bool (snd p * rate) (inject_Z (Z.of_nat (fst p))))
+             && forallb (fun p : nat * Q => Qeq_bool (snd p) (grid_time rate (Z.of_nat (fst p))))
                         (combine (seq 0 (length ts)) ts)
          end
   end.
